@@ -91,10 +91,16 @@ impl Check for C07 {
             Phase { name: "dedicated non-canonical families (bignum tag forms, 4-element recipients with empty list, 7:[[sig]], key_ops orders, float widths, timestamps)", cases: 2000, exhaustive: true },
             Phase { name: "test-suite vectors at every entry point", cases: corpus().len() as u64, exhaustive: true },
             Phase { name: "counter-signature chains of depth 1-14, each level bare / [sig] / [sig, sig], through protected or unprotected headers", cases: scale(if q { 9000 } else { 60000 }, b), exhaustive: false },
+            Phase { name: "birthday: maps with 2^18 pairwise distinct labels are a fixed point", cases: 7, exhaustive: true },
         ]
     }
     fn run_case(&self, ctx: &mut Ctx, phase: usize, idx: u64) {
         match phase {
+            7 => {
+                if let Some((ty, bytes)) = super::common::birthday_case(ctx, idx) {
+                    super::common::fixed_point_check(ctx, ty, &bytes, false);
+                }
+            }
             0 => {
                 let types = all_types();
                 let ty = types[(idx % types.len() as u64) as usize];
@@ -283,7 +289,7 @@ impl Check for C07 {
         }
     }
     fn rule(&self) -> String {
-        "inputs: valid values of all 25 types in 'wild' encodings (wide heads, indefinite strings/arrays/maps, bignum integers, wide floats, shuffled typed entries); structurally and byte-mutated values and test-suite vectors; every byte string of length <= 2 (quick) / <= 3 (thorough); dedicated non-canonical families; each at every untagged entry point and the six tagged ones. Oracle on every accepted b: encode succeeds (b'), decode(b') equals decode(b) under model equality (all retained protected bytes, NaNs equal), encode(decode(b')) == b'. Non-trivial = distinct accepted inputs with b' != b.".into()
+        "inputs: valid values of all 25 types in 'wild' encodings (wide heads, indefinite strings/arrays/maps, bignum integers, wide floats, shuffled typed entries); structurally and byte-mutated values and test-suite vectors; every byte string of length <= 2 (quick) / <= 3 (thorough); dedicated non-canonical families; each at every untagged entry point and the six tagged ones. Oracle on every accepted b: encode succeeds (b'), decode(b') equals decode(b) under model equality (all retained protected bytes, NaNs equal), encode(decode(b')) == b'. Birthday workload: 2^18 pairwise distinct labels (8-character texts / 64-bit integers / private-use integers) in one map must all be accepted and come back in order (a duplicate detector keyed on anything shorter than the label would report a duplicate that is not there). Non-trivial = distinct accepted inputs with b' != b.".into()
     }
     fn assumptions(&self) -> Vec<String> {
         let mut v = super::std_assumptions();
